@@ -1245,3 +1245,16 @@ def _instant_minus_instant(eng, st, args, dty, callee, m):
     a = deref(eng, st, args[0])
     b = deref(eng, st, args[1])
     return merge(time_le(b, a), time_sub(a, b), ZERO_DUR)
+
+
+@summary(r"^<(std::time::)?(Instant|SystemTime|Duration) as (AddAssign|SubAssign)(<(std::time::)?Duration>)?>::(add_assign|sub_assign)$", "Instant/Duration += / -= Duration (underflow is an obligation)")
+def _time_op_assign(eng, st, args, dty, callee, m):
+    a = eng.load(st, args[0])
+    d = deref(eng, st, args[1])
+    ty = m.group(2)
+    if m.group(3) == "AddAssign":
+        eng.store(st, args[0], time_add(a, d, ty))
+    else:
+        eng.oblige(st, "panic:time -= Duration underflow", time_lt(a, d))
+        eng.store(st, args[0], time_sub(a, d, ty))
+    return UNIT
